@@ -11,7 +11,7 @@ import detsched
 
 from mpservice._common import StopRequested
 from mpservice.streamer import Stream
-from mpservice.streamer._streamer_async import AsyncBuffer, SyncIter
+from mpservice.streamer._streamer_async import AsyncBuffer, AsyncStream, SyncIter
 
 MODEL = 'buffer'
 BASE = 100
@@ -21,9 +21,14 @@ class SrcError(Exception):
     pass
 
 
+def _ident(x):
+    return x
+
+
 def gen_case(rng: random.Random, tier: str, bias: str = ''):
     big = tier == 'thorough'
-    kind = rng.choice(['buffer', 'buffer', 'buffer', 'asyncbuffer', 'synciter'])
+    kind = rng.choice(['buffer', 'buffer', 'buffer', 'asyncbuffer', 'synciter', 'buffer', 'asyncbuffer', 'synciter',
+                       'synciter+abuffer', 'synciter+aparmap'])
     maxsize = 2 if kind == 'synciter' else rng.choice([1, 1, 2, 2, 3, 4] if not big else [1, 2, 3, 5, 8])
     n = rng.choice([0, 1, 2, 3, 5, 8, 12] if not big else [0, 1, 2, 5, 9, 16, 30])
     if bias == 'lookahead':
@@ -156,6 +161,13 @@ def run_case(case):
         elif case['kind'] == 'synciter':
             box = [iter(SyncIter(ASrc()))]
             end = consume_sync(box, out)
+        elif case['kind'] == 'synciter+abuffer':
+            # the adapter over an async pipeline that owns a helper thread of its own (monitors only)
+            box = [iter(SyncIter(AsyncStream(ASrc()).buffer(case['maxsize'])))]
+            end = consume_sync(box, out)
+        elif case['kind'] == 'synciter+aparmap':
+            box = [iter(SyncIter(AsyncStream(ASrc()).parmap(_ident, executor='thread', concurrency=case['maxsize'])))]
+            end = consume_sync(box, out)
         else:
             async def amain():
                 agen = AsyncBuffer(ASrc(), case['maxsize']).__aiter__()
@@ -199,12 +211,14 @@ def run_case(case):
         elif e2[0] == 'yld':
             recv += 1
     res['max_ahead'] = worst
-    if worst > case['maxsize'] + 2:
+    if '+' not in case['kind'] and worst > case['maxsize'] + 2:
         mon.append(dict(prop='C08', rule='lookahead', detail=f'{worst} > maxsize+2 = {case["maxsize"] + 2}'))
     return res
 
 
 def model_lines(cid, case, res):
+    if '+' in case['kind']:
+        return []          # stacked stages: no single-buffer trace; the monitors (output, ending, hang, leak) decide
     src = 'clean' if case['src'] == 'clean' else 'exc'
     lines = [f'case {cid} n={case["n"]} maxsize={case["maxsize"]} src={src}']
     final = 0
